@@ -77,7 +77,9 @@ theorem structure_regenerated :
     Gen.GroupBalancer.topicGuardSites = ["findMembersByTopic", "RackAffinityGroupBalancer.AssignGroups"] ∧
     Gen.GroupBalancer.topicListedBeforeIsPrefixSearch = true ∧
     Gen.GroupBalancer.topics32FreshPerMember = true ∧
-    Gen.GroupBalancer.topicMetadataReaders = (2, 2) := by decide
+    Gen.GroupBalancer.topicMetadataReaders = (2, 2) ∧
+    Gen.GroupBalancer.extractTopicsIsFirstSeenThenSorted = true ∧
+    Gen.GroupBalancer.makeAssignmentsRangesOverOwnTopics = true := by decide
 
 /-! ## 1. Range -/
 
@@ -654,10 +656,6 @@ theorem generation_from_its_round (P : Params) (s : St) (h : Reachable P s) (m g
       asg = received P.ρ x.asg m :=
   running_from_round P s h m gid asg hp
 
-/-- the Go map a balancer returns for the members `ms`, as the balancer parameter of the round model -/
-def balanceOf (b : List Member → List Part → Asg) : List Member → List Part → Assignments :=
-  fun ms got => mapOf (b ms got) (ms.map (·.id)) (extractTopics ms)
-
 /-- C14 across the life cycle, for a balancer `b` that satisfies C14 on one call: in every reachable state all running
 generations with generation id `gid` hold parts of one assignment `d` that covers the cluster's partitions of every
 subscribed topic exactly once among the members of generation `gid`, evenly, and gives nothing to non-subscribers -/
@@ -728,6 +726,12 @@ theorem round_steps_are_grouprun_steps (c : KV.Group.Cfg) (g : KV.Group.St) (m :
   · simp only [KV.Group.step, h, if_false]
     have : ¬ (mi == m && gi == gid) = true := by simpa using h
     simp [this]
+
+/-- trace acceptance: a trace the executable acceptor `runB` replays from the initial state ends in a reachable state of
+the life-cycle model, so `generation_from_its_round` / `lifecycle_good` hold of it.  The oracle replays the traces recorded
+from real ConsumerGroups running against the group builder's coordinator simulation (go/internal/groupmock/sim.go). -/
+theorem accepted_trace_reachable (P : Params) (es : List Ev) (s : St) (h : runB P {} es 0 = .ok s) : Reachable P s :=
+  runB_reachable P es {} s 0 Reachable.init h
 
 end Round
 
